@@ -105,6 +105,7 @@ void SimAlloc::reset_run()
 	g_live_atomic.store(0);
 	armed = false;
 	fail_at = 0;
+	fail_at2 = 0;
 	fail_from = false;
 	win_reqs = 0;
 	fired = 0;
@@ -138,7 +139,7 @@ extern "C" void *sim_malloc(size_t n)
 	if (g_alloc.armed) {
 		g_alloc.win_reqs++;
 		if (g_alloc.fail_at > 0 &&
-		    ((int64_t)g_alloc.win_reqs == g_alloc.fail_at ||
+		    ((int64_t)g_alloc.win_reqs == g_alloc.fail_at || (g_alloc.fail_at2 > 0 && (int64_t)g_alloc.win_reqs == g_alloc.fail_at2) ||
 		     (g_alloc.fail_from && (int64_t)g_alloc.win_reqs > g_alloc.fail_at))) {
 			g_alloc.fired++;
 			g_alloc.total_fired++;
@@ -148,6 +149,8 @@ extern "C" void *sim_malloc(size_t n)
 				d.text = g_alloc.dump_text;
 				d.flags = g_alloc.dump_flags;
 				d.k_rel = g_alloc.dump_reqs;
+				d.from = g_alloc.fail_from;
+				d.delta = g_alloc.fail_at2 > (int64_t)g_alloc.win_reqs ? (uint64_t)(g_alloc.fail_at2 - (int64_t)g_alloc.win_reqs) : 0;
 			}
 			if (g_alloc.in_parse) {
 				g_alloc.fired_in_parse++;
@@ -157,6 +160,8 @@ extern "C" void *sim_malloc(size_t n)
 					r.bytes = g_alloc.parse_bytes;
 					r.flags = g_alloc.parse_flags;
 					r.k_rel = g_alloc.parse_reqs;
+					r.from = g_alloc.fail_from;
+					r.delta = g_alloc.fail_at2 > (int64_t)g_alloc.win_reqs ? (uint64_t)(g_alloc.fail_at2 - (int64_t)g_alloc.win_reqs) : 0;
 					r.entry = g_alloc.parse_entry;
 				}
 			}
